@@ -2,7 +2,7 @@
 import vfx
 from props import hist, histprop
 
-CONFIGS = ["ovl_mm", "ovl_mmm", "ovl_pp", "ovl_mp", "ovl_sub", "ovl_late", "alt_ovl", "ovl_alt", "ovl_ovl", "ovl_lo_ovl"]
+CONFIGS = ["ovl_mm", "ovl_mmm", "ovl_pp", "ovl_mp", "ovl_sub", "ovl_late", "alt_ovl", "ovl_alt", "ovl_ovl", "ovl_lo_ovl", "ovl_4", "ovl_pmpm"]
 MUTATING = {"create_dir", "create_file", "append_file", "set_creation_time", "set_modification_time",
             "set_access_time", "remove_file", "remove_dir", "copy_file", "move_file", "move_dir"}
 OBSERVERS = {"exists", "metadata", "isfile", "isdir", "readdir", "openfile", "walkdir", "readtostring", "probe",
